@@ -104,9 +104,9 @@ Print Assumptions refused_arguments_do_not_matter.
    exactly the stacked visible contents of the sections - which are the contents the allowed calls wrote (the Section.v
    run of erase) -, every row count is right, the style stack is empty. *)
 Theorem gated_screen_is_stack : forall w, 1 <= w -> forall f0 ops, is_ansi f0 -> f_stack f0 = [] ->
-  good_opsb (f_styles f0) (erase [] ops) = true ->
-  exists st f es, grun true w [] [] f0 ops = Ok (st, gates_after [] ops, f, es) /\
-    srun true w [] f0 (erase [] ops) = Ok (st, f, es) /\
+  good_opsb (f_styles f0) (erase gates0 ops) = true ->
+  exists st f es, grun true w [] gates0 f0 ops = Ok (st, gates_after gates0 ops, f, es) /\
+    srun true w [] f0 (erase gates0 ops) = Ok (st, f, es) /\
     feed w term_init es = screen w (f_styles f0) st /\ Forall (sec_ok w (f_styles f0)) st /\ fmt_ok (f_styles f0) f.
 Proof. exact gated_screen_lemma. Qed.
 Print Assumptions gated_screen_is_stack.
@@ -128,21 +128,21 @@ Definition t_later : str := [108;97;116;101;114]%N.           (* later *)
    sequence without the refused call, no cell of it is an 'M', the screen shows older / later, section 1 has no content. *)
 Example c10g_refused_text_absent :
   let ops := [GCreate; GCreate; GWrite 0 t_older None true; GWrite 1 t_mark (Some VERBOSE) true; GWrite 0 t_later None true] in
-  match grun true 10 [] [] g_f ops, grun true 10 [] [] g_f [GCreate; GCreate; GWrite 0 t_older None true; GWrite 0 t_later None true] with
+  match grun true 10 [] gates0 g_f ops, grun true 10 [] gates0 g_f [GCreate; GCreate; GWrite 0 t_older None true; GWrite 0 t_later None true] with
   | Ok (st, _, _, es), Ok (st', _, _, es') =>
       es = es' /\ st = st' /\ existsb (fun e => match e with Ch 77%N => true | _ => false end) es = false
       /\ rows (feed 10 term_init es) = [t_older; t_later; []] /\ map sc_content st = [[t_older; t_later]; []]
-      /\ kept [] ops = [GCreate; GCreate; GWrite 0 t_older None true; GWrite 0 t_later None true]
+      /\ kept gates0 ops = [GCreate; GCreate; GWrite 0 t_older None true; GWrite 0 t_later None true]
   | _, _ => False
   end.
 Proof. vm_compute. repeat split. Qed.
 (* the same with a quiet newer section, and the allowed write when the section is verbose enough *)
 Example c10g_quiet_and_verbose :
-  (match grun true 10 [] [] g_f [GCreate; GCreate; GWrite 0 t_older None true; GSetQuiet 1 true; GWrite 1 t_mark None true;
+  (match grun true 10 [] gates0 g_f [GCreate; GCreate; GWrite 0 t_older None true; GSetQuiet 1 true; GWrite 1 t_mark None true;
                                  GOverwrite 1 t_mark; GSetQuiet 1 false; GWrite 0 t_later None true] with
    | Ok (st, _, _, es) => rows (feed 10 term_init es) = [t_older; t_later; []] /\ map sc_content st = [[t_older; t_later]; []]
    | Err _ => False end) /\
-  (match grun true 10 [] [] g_f [GCreate; GCreate; GWrite 0 t_older None true; GSetVerbosity 1 LVerbose;
+  (match grun true 10 [] gates0 g_f [GCreate; GCreate; GWrite 0 t_older None true; GSetVerbosity 1 LVerbose;
                                  GWrite 1 t_mark (Some VERBOSE) true; GWrite 0 t_later None true] with
    | Ok (st, _, _, es) => rows (feed 10 term_init es) = [t_older; t_later; t_mark; []] /\ map sc_content st = [[t_older; t_later]; [t_mark]]
    | Err _ => False end).
@@ -155,10 +155,10 @@ Proof. vm_compute. repeat split. Qed.
 Example c10_refused_clear_leaves_no_trace :
   let ops := [GCreate; GCreate; GWrite 0 t_older None true; GWrite 1 t_mark None true; GSetQuiet 1 true; GClear 1 None;
               GOverwrite 1 t_later; GClear 1 (Some 1); GSetQuiet 1 false; GWrite 0 t_later None true] in
-  match grun true 10 [] [] g_f ops with
+  match grun true 10 [] gates0 g_f ops with
   | Ok (st, _, _, es) => rows (feed 10 term_init es) = [t_older; t_later; t_mark; []] /\ map sc_content st = [[t_older; t_later]; [t_mark]]
                          /\ map sc_lines st = [2; 1]
-                         /\ kept [] ops = [GCreate; GCreate; GWrite 0 t_older None true; GWrite 1 t_mark None true; GSetQuiet 1 true;
+                         /\ kept gates0 ops = [GCreate; GCreate; GWrite 0 t_older None true; GWrite 1 t_mark None true; GSetQuiet 1 true;
                                           GSetQuiet 1 false; GWrite 0 t_later None true]
   | Err _ => False
   end.
